@@ -13,24 +13,28 @@ type c04Profile struct {
 	name   string
 	movers []int // indices into c04Movers
 	filler int64 // a filler target (health down, never relieved) with this many kept = total series
+	stale  int64 // stale head series of the shard's Prometheus on top of the targets' own
 }
 
 // targets that may sit on shards and be moved: (series, total)
-var c04Movers = [][2]int64{{40, 40}, {10, 60}, {30, 30}, {60, 60}, {60, 60}, {130, 130}}
+var c04Movers = [][2]int64{{40, 40}, {10, 60}, {30, 30}, {60, 60}, {60, 60}, {130, 130}, {10, 150}}
 
 var c04Profiles = []c04Profile{
-	{"empty", nil, 0},
-	{"A", []int{0}, 0},
-	{"A+B", []int{0, 1}, 0},
-	{"C", []int{2}, 0},
-	{"fill85", nil, 85},
-	{"fill90", nil, 90},
-	{"A+fill50", []int{0}, 50},
-	{"A+C+fill30", []int{0, 2}, 30},
-	{"D+D", []int{3, 4}, 0}, // targets alone exceed both limits: relief really moves something
-	{"A+C+D", []int{0, 2, 3}, 0},
-	{"GROWN", []int{5}, 0}, // one assigned target that has outgrown a whole shard
-	{"GROWN+C", []int{5, 2}, 0},
+	{"empty", nil, 0, 0},
+	{"A", []int{0}, 0, 0},
+	{"A+B", []int{0, 1}, 0, 0},
+	{"C", []int{2}, 0, 0},
+	{"fill85", nil, 85, 0},
+	{"fill90", nil, 90, 0},
+	{"A+fill50", []int{0}, 50, 0},
+	{"A+C+fill30", []int{0, 2}, 30, 0},
+	{"D+D", []int{3, 4}, 0, 0}, // targets alone exceed both limits: relief really moves something
+	{"A+C+D", []int{0, 2, 3}, 0, 0},
+	{"GROWN", []int{5}, 0, 0}, // one assigned target that has outgrown a whole shard
+	{"GROWN+C", []int{5, 2}, 0, 0},
+	// a target whose TOTAL series alone exceed the process limit while it keeps few (it exceeds one limit
+	// only), on a shard whose head is far over the head limit because of stale series
+	{"TOTALBIG+stale175", []int{6}, 0, 175},
 }
 
 // new unscraped targets (series, total)
@@ -86,7 +90,7 @@ func c04Gen(thorough bool) func(emit func(*h1.Scenario)) {
 						b.Target(h, p.filler, p.filler, true, "down")
 						b.Copy(s, h, h1.St{Health: "down", Times: 5, Series: p.filler, Total: p.filler})
 					}
-					b.ExtraHead(s, exs[ix[2*s+1]])
+					b.ExtraHead(s, exs[ix[2*s+1]]+p.stale)
 				}
 				for k, sz := range c04New[ix[2*n]] {
 					b.Target(uint64(1+k), sz[0], sz[1], true, "up")
@@ -271,6 +275,35 @@ func c04Oracle(sc *h1.Scenario, o *h1.Obs) []Finding {
 					if arg > cur && arg > opt.MinShard {
 						fs = append(fs, Finding{Clause: "oversized-scale-up", Sig: "C04:oversized-scale-up:assigned-target-grew",
 							Detail: fmt.Sprintf("ChangeScale(%d) above current %d although the only excess load is an assigned target that alone exceeds a limit", arg, cur)})
+					}
+				}
+			}
+			// nothing can be moved at all: every target on the overloaded shards exceeds a limit on its own (the
+			// rest of the overload is stale head series, which no transfer removes), and nothing waits for
+			// placement - more shards help nobody
+			if overloaded && !grownOnly && len(eligibleUnplacedAny(sc, rep, ro)) == 0 {
+				nothingMovable := true
+				for si := range rep.Shards {
+					s := &rep.Shards[si]
+					if !(s.Proc >= opt.MaxProc || (opt.MaxHead != 0 && float64(s.Head) >= 1.1*float64(opt.MaxHead))) {
+						continue
+					}
+					if !s.InSync() || len(s.Status) == 0 {
+						nothingMovable = false
+					}
+					for _, st := range s.Status {
+						if !oversized([2]int64{st.Series, st.Total}) {
+							nothingMovable = false
+						}
+					}
+				}
+				cur := int32(len(rep.Shards))
+				if nothingMovable {
+					for _, arg := range ro.Scales {
+						if arg > cur && arg > opt.MinShard {
+							fs = append(fs, Finding{Clause: "oversized-scale-up", Sig: "C04:oversized-scale-up:only-oversized-targets-on-overloaded-shards",
+								Detail: fmt.Sprintf("ChangeScale(%d) above current %d although every target on the overloaded shards exceeds a limit alone (none can move) and nothing waits for placement", arg, cur)})
+						}
 					}
 				}
 			}
